@@ -567,6 +567,12 @@ func call(t *vlib.T, what string, f func()) bool {
 func finding(t *vlib.T, class, format string, a ...any) {
 	nFindings++
 	t.Count("finding:"+class, 1)
+	if p := os.Getenv("C03_FINDINGS_LOG"); p != "" {
+		if f, err := os.OpenFile(p, os.O_APPEND|os.O_CREATE|os.O_WRONLY, 0o644); err == nil {
+			fmt.Fprintf(f, "%s\t%s/%s\n", class, t.Group, t.Key)
+			f.Close()
+		}
+	}
 	for _, m := range strings.Split(os.Getenv("C03_MUTE"), ",") {
 		if m == class {
 			t.Count("muted:"+class, 1)
